@@ -256,6 +256,12 @@ def run_check(engine, prop, tier, root, n_runs=None):
     steps = ops = sut_errors = 0
     samples = []
     viols = []
+    abandoned = [r for r in results if "harness_error" in r]
+    results = [r for r in results if "harness_error" not in r]
+    for r in abandoned[:3]:
+        last = r["harness_error"].strip().splitlines()[-1]
+        print(f"HARNESS-WARNING property={prop} run {r['idx']} abandoned "
+              f"(exception inside the harness, no verdict): {last}")
     for r in results:
         counters.merge(r.get("counters", {}))
         states.update(r.get("states", ()))
@@ -321,6 +327,10 @@ def run_check(engine, prop, tier, root, n_runs=None):
                            if not k.startswith(("fault.", "probe.", "op.",
                                                 "workload."))},
         "sut_exceptions_outside_property": sut_errors,
+        "runs_abandoned_by_harness_exception": len(abandoned),
+        "harness_exception_samples": [
+            r["harness_error"].strip().splitlines()[-1]
+            for r in abandoned[:3]],
         "components_real": d.get("real", []),
         "components_stub": d.get("stub", []),
         "known_finding_hits": known.hits,
